@@ -427,6 +427,8 @@ func writeEvidenceFile(cfg *Config, prop string, results []*HarnessResult, viola
 		if r.H.Conc {
 			hd["thread_path_combinations"] = r.ConcCombos
 			hd["combinations_pruned_without_solver"] = r.PrunedCombos
+			hd["prefixes_pruned_by_relaxed_query"] = r.PrunedPrefixes
+			hd["relaxed_prefix_queries"] = r.PartialQueries
 			hd["combinations_with_a_consistent_schedule"] = r.FeasibleCombos
 			hd["events_encoded"] = r.Events
 		}
